@@ -22,7 +22,8 @@ def scenario_list(ctx, which):
         keep = ['basic', 'mess', 'tidy', 'save-temps', 'helper-error', 'zero-size', 'die-on-pass-bug', 'growth-bailout', 'modes:stub', 'modes:lines0', 'skip-sanity']
         return [s for s in base if s['name'] in keep] + [s for s in real if s['name'].split(':')[1] in ('lines0', 'ifs', 'blank', 'unifdef')]
     if which == 'C05':
-        return [s for s in base if s['name'] in ('basic', 'faults', 'mess', 'dotdot', 'growth-bailout', 'format-insane')] + real
+        latin = [W.scen_real_pass_latin1(rng, w) for w in ('line_markers', 'blank', 'includes', 'comments', 'linesNone', 'lines0', 'ifs', 'unifdef', 'balanced', 'ints')]
+        return [s for s in base if s['name'] in ('basic', 'faults', 'mess', 'dotdot', 'growth-bailout', 'format-insane')] + real + latin
     if which == 'C08':
         return [s for s in base if s['name'] != 'dotdot'] + [s for s in real if s['name'].split(':')[1] in ('ifs', 'lines0', 'linesNone')]
     return base + real
